@@ -135,6 +135,18 @@ where
     })
 }
 
+/// affine scalar field f(t,y)_d = a*y_d + b*t + c with symbolic a, b, c (used where the implicit
+/// BDF equations must stay linear so that the Broyden iteration terminates)
+pub fn affine_rhs<S: Sc, D: Dimension>(log: Log<S>) -> (Rhs<S, D>, (S, S, S))
+where
+    DefaultAllocator: Allocator<S, D>,
+{
+    let a = S::input("a", -2.0, 0.5);
+    let b = S::input("b", -2.0, 2.0);
+    let c = S::input("c", -2.0, 2.0);
+    (fn_rhs::<S, D, _>(log, move |t: S, y: &[S]| y.iter().map(|yd| a * *yd + b * t + c).collect()), (a, b, c))
+}
+
 pub fn drive<'a, S, D, Slv>(c: &Conf<S>, f: Slv::Derivative, max_items: usize, log: &Log<S>, dynamic: bool, post: usize) -> Run<S>
 where
     S: Sc,
@@ -208,6 +220,28 @@ dispatch!(run_d1, Const<1>, false);
 dispatch!(run_d2, Const<2>, false);
 dispatch!(run_dyn, Dyn, true);
 
+/// Find the value the derivative function returned at (t, y): the most recent logged call whose
+/// arguments are entailed (by the path condition) to equal (t, y) up to 1e-9.
+pub fn lookup<S: Sc>(calls: &[Call<S>], t: S, y: &[S]) -> Option<Vec<S>> {
+    let eps = S::lit(1e-9);
+    for call in calls.iter().rev() {
+        if call.v.is_empty() || call.y.len() != y.len() {
+            continue;
+        }
+        if !S::probably_equal(call.t, t) || !call.y.iter().zip(y).all(|(a, b)| S::probably_equal(*a, *b)) {
+            continue;
+        }
+        let mut cond = S::b_close(call.t, t, eps);
+        for (a, b) in call.y.iter().zip(y) {
+            cond = S::b_and(cond, S::b_close(*a, *b, eps));
+        }
+        if S::holds(cond) {
+            return Some(call.v.clone());
+        }
+    }
+    None
+}
+
 pub fn conf_inputs<S: Sc>(dim: usize, ybox: f64) -> Conf<S> {
     Conf {
         t0: S::input("t0", -10.0, 10.0),
@@ -217,6 +251,44 @@ pub fn conf_inputs<S: Sc>(dim: usize, ybox: f64) -> Conf<S> {
         tol: S::input("tol", 1e-8, 1.0),
         y0: (0..dim).map(|i| S::input(&format!("y0_{}", i), -ybox, ybox)).collect(),
     }
+}
+
+/// Seeded concrete problem family for the implicit (BDF) solvers: concrete step bounds, initial
+/// state and affine field f = a*y + b*t + c; symbolic start time, end time and tolerance.  Every
+/// solver-internal quantity is then affine in t0, so all queries are linear.
+pub fn conf_family<S: Sc, D: Dimension>(dim: usize, seed: i64, member: usize, log: Log<S>) -> (Conf<S>, Rhs<S, D>, (f64, f64, f64))
+where
+    DefaultAllocator: Allocator<S, D>,
+{
+    conf_family_opt(dim, seed, member, log, false)
+}
+
+/// `nonautonomous`: b != 0 and a concrete start time (keeps every state a constant; t1 and tol stay symbolic)
+pub fn conf_family_opt<S: Sc, D: Dimension>(dim: usize, seed: i64, member: usize, log: Log<S>, nonautonomous: bool) -> (Conf<S>, Rhs<S, D>, (f64, f64, f64))
+where
+    DefaultAllocator: Allocator<S, D>,
+{
+    let mut g = crate::h::util::Lcg::new(seed.wrapping_mul(7919).wrapping_add(member as i64 * 104729 + 17));
+    let dt_min = g.range_r(0.02, 0.2, 3);
+    // odd members allow several halvings before the minimum step is reached
+    let dt_max = (dt_min * if member % 2 == 0 { g.range(1.0, 2.0) } else { g.range(4.0, 7.0) } * 1000.0).round() / 1000.0;
+    let a = g.range_r(-2.0, 0.5, 2);
+    // autonomous members only: with b != 0 the Broyden update makes the states rational in t0 (measured: minutes per path)
+    let bb = g.range_r(0.3, 1.0, 2) * if member % 2 == 0 { 1.0 } else { -1.0 };
+    let b = if nonautonomous { bb } else { 0.0 };
+    let c = g.range_r(-1.0, 1.0, 2);
+    let y0: Vec<S> = (0..dim).map(|_| S::lit(g.range_r(-2.0, 2.0, 2))).collect();
+    let conf = Conf {
+        t0: if nonautonomous { S::lit(g.range_r(-3.0, 3.0, 2)) } else { S::input("t0", -10.0, 10.0) },
+        t1: S::input("t1", -10.0, 20.0),
+        dt_min: S::lit(dt_min),
+        dt_max: S::lit(dt_max),
+        tol: S::input("tol", 1e-8, 1.0),
+        y0,
+    };
+    let (la, lb, lc) = (S::lit(a), S::lit(b), S::lit(c));
+    let f = fn_rhs::<S, D, _>(log, move |t: S, y: &[S]| y.iter().map(|yd| la * *yd + lb * t + lc).collect());
+    (conf, f, (a, b, c))
 }
 
 /// the documented validity predicate of a configuration
